@@ -14,6 +14,7 @@ PROP = {'n_quick': 260,
              "a tamper is applied by the harness to the real transaction and, symbolically, by the model (Model/Tamper.v `apply`) to its opened form; "
              '`corrupt` = one flipped byte that still parses (real) / the intact flag cleared (model)',
              'asset ids are numbers; issuance ids are read from the case (C11)'],
+ 'tables': ['C04'],
  'assumes': ['C05_tamper and C05_sound are about transactions whose spent outputs are opened (`opens`: H_a + abf*G generators, explicit issuances) — '
              'the transactions C04 produces; confidential issuance amounts are outside',
              'a spent-asset change is only claimed to be rejected when the function reads the asset (some output has a surjection proof, or the spent '
@@ -25,14 +26,15 @@ TEXT = {'text': 'Kernel-checked theorems in the ideal-commitment model (level: p
          'INTEGERS against the opened inputs and issuances, and that every confidential output carries range and surjection proofs for exactly that '
          'output (C05_sound); from any accepted transaction, every tamper class of the property (an inductive with apply/applicable/changes, 14 '
          'constructors) at every applicable position is rejected (C05_tamper); an all-explicit transaction is accepted iff the spent list has the right '
-         'length, the zero-value rule holds and every asset balances — proved as the code behaves (no zero amounts at all, C05_explicit_iff_model) and '
-         "as the property states it outside the F13 class (C05_explicit_iff); a spent list of the wrong length is rejected as such (C05_len_mismatch). "
-         'Refutation C05_zero_opreturn_refuted (finding F13): a balanced explicit transaction with a zero-amount OP_RETURN/fee output is rejected. '
+         'length, zero amounts occur only on provably unspendable scripts and every asset balances (C05_explicit_iff, the property\'s own form, after '
+         'repair b3b2d40 of finding F13); an explicit zero amount is SKIPPED on a provably unspendable script and still REJECTED '
+         '(NonUnspendableZeroValue from get_value_commit) on a spendable one (C05_zero_value_unspendable_skipped / _spendable_rejected); a spent list of '
+         'the wrong length is rejected as such (C05_len_mismatch). '
          'Every run blinds generated transactions with the real crate, applies each tamper to the real structures, and the model must predict the verdict '
          'AND the error variant (with index) of verify_tx_amt_proofs before and after.',
  'design_ref': 'DESIGN.md section 6, C05',
  'note': 'Trusted: Coq kernel; the ideal-commitment idealisation; hand-written model of verify_tx_amt_proofs (same checks, same order, same error variants, '
-         "including that an output's get_value_commit error is reported as SpentTxOutError) tied by per-run correspondence; harness. Known finding F13. "
+         "including that an output's get_value_commit error is reported as SpentTxOutError) tied by per-run correspondence; harness. Finding F13 is fixed (b3b2d40); a return of it is a VIOLATION. Consequence of the repair recorded in `applicable`: nothing on a skipped output (its asset, a surjection proof) is read, so changing those is not claimed to be rejected. "
          "The repository's real-network vector with known spent output (the doc example of verify_tx_amt_proofs, blinded by Elements Core) is part of the "
          'stream with a FABRICATED balanced opening (its true openings are unknown; ideal verdicts depend only on the equational structure); the '
          'tests/data transactions come without their spent outputs and cannot be verified at all.',
